@@ -143,3 +143,6 @@ Qed.
 Lemma Forall2_app_len {A B} (P : A -> B -> Prop) l1 l2 m1 m2 :
   Forall2 P l1 m1 -> Forall2 P l2 m2 -> Forall2 P (l1 ++ l2) (m1 ++ m2).
 Proof. intros H1 H2. induction H1; cbn; [exact H2|constructor; assumption]. Qed.
+
+Lemma Forall2_len {A B} (P : A -> B -> Prop) l m : Forall2 P l m -> length l = length m.
+Proof. induction 1; cbn; lia. Qed.
